@@ -824,13 +824,16 @@ def generate_name_alternatives():
             if entry[4]:
                 for a in alternatives:
                     for up, up_data in unit_prefixes.items():
+                        # all three micro spellings denote the canonical "μ"
+                        # symbol, like for the prefixed symbols above
+                        canonical = ("μ" if up in ["u", "μ", "µ"] else up) + key
                         if len(a) < 4:
-                            append_name(names[up + key], up + key, up + a)
+                            append_name(names[up + key], canonical, up + a)
                         alt = up_data[1] + a
                         if alt not in seen:
-                            append_name(names[up + key], up + key, alt)
+                            append_name(names[up + key], canonical, alt)
                         if alt.title() not in names[up + key]:
-                            append_name(names[up + key], up + key, alt.title())
+                            append_name(names[up + key], canonical, alt.title())
             for alt in alternatives:
                 append_name(names[key], key, alt)
                 if not alt.islower() or len(alt) < 4:
